@@ -82,7 +82,7 @@ func (o *Obligation) smtText(withModel bool) string {
 	var axs []string
 	changed := true
 	used := map[string]bool{}
-	for changed {
+	for round := 0; changed && round < 2; round++ {
 		changed = false
 		for _, a := range u.axiomTerms {
 			if used[a.name] {
@@ -100,10 +100,13 @@ func (o *Obligation) smtText(withModel bool) string {
 			if rel {
 				used[a.name] = true
 				axs = append(axs, "(assert "+a.t.S+") ; axiom "+a.name+"\n")
-				for s := range as {
-					if !syms[s] {
-						syms[s] = true
-						changed = true
+				// one more round: axioms that talk about symbols introduced by a directly relevant axiom
+				if round == 0 {
+					for s := range as {
+						if !syms[s] {
+							syms[s] = true
+							changed = true
+						}
 					}
 				}
 			}
@@ -139,6 +142,14 @@ func (o *Obligation) smtText(withModel bool) string {
 		builtin = "(assert (forall ((r!b (Array Int Int)) (o!b Int) (l!b Int)) (=> (>= l!b 0) (= (blen (bytesof r!b o!b l!b)) l!b))))\n"
 		all += builtin
 	}
+	if strings.Contains(all, "(slen ") || u.d.has("slen") && strings.Contains(all, "slen") {
+		builtin += "(assert (forall ((s!sl Str)) (! (<= 0 (slen s!sl)) :pattern ((slen s!sl)))))\n"
+	}
+	if strings.Contains(all, "(sconcat ") {
+		u.d.Fun("slen", []Sort{SStr}, SInt)
+		builtin += "(assert (forall ((a!sc Str) (b!sc Str)) (! (= (slen (sconcat a!sc b!sc)) (+ (slen a!sc) (slen b!sc))) :pattern ((sconcat a!sc b!sc)))))\n"
+	}
+	all += builtin
 	b.WriteString(u.d.emit(all))
 	b.WriteString(builtin)
 	b.WriteString(strings.Join(axs, ""))
